@@ -94,6 +94,9 @@ decided by exhaustive evaluation of the guard over environment x {no, some tagge
     let consts = const_resolver(m);
     let reference = load_ref(ctx);
 
+    // the tagging pass is one of the sibling traversals of ASN1Type: it must visit every container kind (shared with C09)
+    crate::rules::c09::traverse(m, ctx, "C03.traverse");
+
     // ---------------- H ----------------
     let mut h: BTreeMap<Option<String>, String> = BTreeMap::new();
     let mut h_site = (String::new(), 0usize);
